@@ -1,4 +1,5 @@
-/- Driver for C25.  `c25 <hex S>` → `t1|t2|h` for asis and spec, each part hex text or `err`:
+/- Driver for C25.  `c25 <hex S>` → `t1|t2|h|hc` for asis and spec, each part hex text or `err`
+   (hc = the header in compressed style):
    t1 = print (parse S), t2 = print (parse t1), h = header emitted for `S { x: y }`
    (spec: = t1; asis with flag `ruleSigilEscapeNotFirst`: print (parse (sassSigilPre S))). -/
 import RsassModel.Basic.Proto
@@ -23,7 +24,11 @@ def answer (q : LexQuirks) (sigil : Bool) (s : List Char) : String :=
   -- the header is the print of a *second* parse (equal to t1 whenever the round trip holds)
   let h0 := if sigil then pp q (sassSigilPre (s.length + 1) s) else t1
   let h := match h0 with | some t => pp q t | none => none
-  showPart t1 ++ "|" ++ t2 ++ "|" ++ showPart h
+  -- compressed style: the same second parse, printed with `compressed = true`
+  let hc := match h0 with
+    | some t => (match parseSelSet q t with | some ss => some (SelSet.print true ss) | none => none)
+    | none => none
+  showPart t1 ++ "|" ++ t2 ++ "|" ++ showPart h ++ "|" ++ showPart hc
 
 def handle (quirks : List String) (op : String) (args : List String) : String :=
   match op, args with
